@@ -19,6 +19,7 @@ type dispatchInfo struct {
 	ctxDef    ssa.Instruction
 	mainLook  *ssa.Call // the non-lazy lookup
 	lazyLooks []*ssa.Call
+	lazySite  map[*ssa.Call]*ssa.Call // a lazy lookup that sits in a helper called from ServeHTTP -> that call
 	// handler call sites
 	routeCalls   []*ssa.Call // through Route.hall
 	specialCalls map[*types.Var][]*ssa.Call
@@ -118,6 +119,28 @@ func analyseDispatch(w *World) *dispatchInfo {
 	if d.mainLook == nil {
 		anchorFail("the non-lazy lookup of ServeHTTP")
 	}
+	// Allow loops moved into a helper of the module: the lazy lookup is found there, the call in ServeHTTP stands for it
+	d.lazySite = map[*ssa.Call]*ssa.Call{}
+	eachInstr(d.fn, func(in ssa.Instruction) {
+		site, ok := in.(*ssa.Call)
+		if !ok || site.Call.StaticCallee() == nil || site.Call.StaticCallee() == lookupFn {
+			return
+		}
+		h := site.Call.StaticCallee()
+		if !w.InModule(h) || len(h.Blocks) == 0 {
+			return
+		}
+		eachInstr(h, func(in2 ssa.Instruction) {
+			c2, ok := in2.(*ssa.Call)
+			if !ok || c2.Call.StaticCallee() != lookupFn {
+				return
+			}
+			if lz, isConst := constBool(c2.Call.Args[len(c2.Call.Args)-1]); isConst && lz {
+				d.lazyLooks = append(d.lazyLooks, c2)
+				d.lazySite[c2] = site
+			}
+		})
+	})
 	d.cf.Run(d.fn, d.ctx, d.ctxDef, func(in ssa.Instruction, st ctxState) { d.state[in] = st.clone() })
 	return d
 }
@@ -310,11 +333,29 @@ func checkAllowLoops(w *World, r *Report, d *dispatchInfo) {
 	for i, c := range d.lazyLooks {
 		a := c.Call.Args
 		name := fmt.Sprintf("lazy lookup #%d", i+1)
+		site := d.lazySite[c] // nil: the loop is in ServeHTTP itself
+		subst := func(v ssa.Value) ssa.Value {
+			if site == nil {
+				return v
+			}
+			if p, ok := stripIface(v).(*ssa.Parameter); ok && p.Parent() == c.Parent() {
+				if k := paramIndex(c.Parent(), p); k >= 0 && k < len(site.Call.Args) {
+					return site.Call.Args[k]
+				}
+			}
+			return v
+		}
 		// args: tree, method, host, path, ctx, lazy
-		okTree := a[0] == mainArgs[0]
-		okPath := a[3] == mainArgs[3]
+		okTree := subst(a[0]) == mainArgs[0]
+		okPath := subst(a[3]) == mainArgs[3]
 		okHost := sameExpr(a[2], mainArgs[2])
-		okCtx := stripIface(a[4]) == d.ctx
+		if !okHost && site != nil {
+			// r.Host of the request parameter the helper was handed
+			b1, f1, ok1 := loadedField(a[2])
+			b2, f2, ok2 := loadedField(mainArgs[2])
+			okHost = ok1 && ok2 && f1 == f2 && subst(b1) == b2
+		}
+		okCtx := stripIface(subst(a[4])) == d.ctx
 		_, kf, isKey := loadedField(a[1])
 		okKey := isKey && kf.Name() == "key"
 		lz, isConst := constBool(a[len(a)-1])
@@ -404,7 +445,11 @@ func checkAllowLoops(w *World, r *Report, d *dispatchInfo) {
 		feeds := ""
 		for f, calls := range d.specialCalls {
 			for _, hc := range calls {
-				if blockReach(c.Block(), true)[hc.Block()] && f.Name() != "noRoute" {
+				from := c.Block()
+				if site != nil {
+					from = site.Block()
+				}
+				if blockReach(from, true)[hc.Block()] && f.Name() != "noRoute" {
 					// the nearest one: the handler whose call block is dominated by the loop's function region; pick by gate flag
 					if f.Name() == "noMethod" && excl || f.Name() == "autoOptions" && !excl {
 						feeds = f.Name()
